@@ -56,7 +56,7 @@ RULE = ('every string up to the tier length over the token alphabet {@ a b 0 1 {
         'well-formed documents (split context / corrupted command / rest); the same with wanted_entries; seeded random Unicode text; each in capture, strict '
         'and non-strict mode; repeated-key corruptions (key token := a key of the prefix in another case spelling, alone and with a further '
         'corruption); the problems as they are shown (op c10render: error_context_info, str, get_context, format_error, stderr text of '
-        'non-strict mode) on multi-line texts with every line break of str.splitlines; LowLevelParser used directly (op c10lowlevel: yielded '
+        'non-strict mode) on multi-line texts with every line break of str.splitlines; family dupxref (wanted_entries given; the corrupted entry has a crossref to a LATER entry nothing else wants; its key := a key of the prefix, so that it is dropped as repeated, or its own key with a token-level corruption; fixed documents and random ones); LowLevelParser used directly (op c10lowlevel: yielded '
         'commands, collecting / raising handle_error, fixed want_entry); non-trivial = text containing "@"; distinct by case JSON')
 TRUSTED = ['stderr text of non-strict mode is observed through pybtex.io.stderr redirection',
            'rendering model = Model/Errors.lean of C16 (str.splitlines line-break table, repr() of non-ASCII characters in InvalidNameString messages approximated as stated there); '
@@ -451,6 +451,14 @@ def oracle(case, io, reply):
             after_want = clean_e[len(pre_e):]
             after_got = got[len(pre_e):]
             partial_keys = {e['key'].lower() for e in after_got} - {e['key'].lower() for e in after_want}
+            # the only entries excused are the malformed entry's OWN (partial) ones: when the implementation reads the command to its end
+            # within pre + bad (no PrematureEOF there: it is not cut off, the text behind it cannot become part of it) and stores no entry
+            # for it (the entries of pre + bad are those of pre: the command was dropped, e.g. as a repeated entry), then nothing that is
+            # read behind it can be its partial entry
+            prebad0 = io['ctx'].get('prebad') or {}
+            if (prebad0.get('entries') is not None and prebad0['entries'] == pre_e
+                    and not any(e[0] == 'PrematureEOF' for e in prebad0.get('errors') or [])):
+                partial_keys = set()
             rest = [e for e in after_got if e['key'].lower() not in partial_keys]
             if rest != after_want:
                 # the two recorded mechanisms, recognised by what the reader model does on the malformed command ALONE
@@ -584,6 +592,21 @@ WANTED_DOCS = [
 ]
 CROSSREF_DOC = ('@misc{a, crossref = {B}, t = {x}}\n', '@misc(b, t = "q" # undefinedmacro # {z}, crossref = "c")', '\n@misc{c, u = undefined2}\n@misc{d, u = undefined3}\n')
 
+# family dupxref: the corrupted entry carries a crossref field whose target comes LATER in the text and is wanted by nothing else; its key
+# token is replaced by a key of the prefix (repeated entry: reported and dropped), read with wanted_entries that do / do not hold the repeated
+# key, the target, '*'.  A dropped entry must not decide which of the entries behind it are read.
+XREF_DUP_DOCS = [
+    ('@article{knuth84, title = {LP}, year = 1984}\n',
+     '@article{lit2, crossref = {tex-book}, title = {LP again}}',
+     '\n@book{tex-book, title = {TB}, year = 1986}\n@book{other, title = {N}}\n',
+     [['knuth84'], ['KNUTH84', 'other'], ['knuth84', 'TEX-BOOK'], ['*'], [], ['lit2', 'other']]),
+    # parenthesised, the crossref given by a macro in another case spelling than the target's key; the target refers on to a later entry
+    # (chain); an accepted entry of the prefix has a crossref of its own
+    ('@string{tb = "Chain-1"}\n@misc{a1, t = {x}}\n@misc(b2, crossref = "z9")\n',
+     '@misc(c3, u = 1, crossref = tb)',
+     ' @misc{chain-1, crossref = {End}} @misc{z9} @misc{end, t = 1}\r\n@misc{free}',
+     [['a1'], ['B2', 'a1'], ['b2'], ['A1', 'c3']]),
+]
 ALPHA = ['@', 'a', '1', '{', '}', '(', ')', '"', ',', '=', '#', ' ', '\n', 'b', '0', '\r', '~']
 # name pieces for the person-field family: every string of at most 3 of these is read as an author / editor value
 PTOK = ['~', '-', ',', ' ', 'a', 'A', '{}', '\\', 'and']
@@ -645,6 +668,42 @@ def _one_corruption(rng, toks):
     if op == 'truncate':
         return op, toks[:i]
     return op, toks[:i] + [rng.choice(REPL)] + toks[i + 1:]
+
+
+XREF_KEYS = ['k1', 'K2', 'ab', 'x-y', 'n:3', 'Zed', 'q', 'r2d2']
+
+
+def _xref_case(rng):
+    n = rng.randint(3, 6)
+    keys = rng.sample(XREF_KEYS, n)
+    i = rng.randint(1, n - 2)
+    ents = []
+    for j, k in enumerate(keys):
+        fields = ['t = %s' % rng.choice(['{x}', '"A {B}"', '12', 'jan'])] if rng.random() < 0.6 else []
+        later = keys[j + 1:]
+        if later and (j == i or rng.random() < 0.4):
+            tgt = rng.choice(later)
+            if rng.random() < 0.3:
+                tgt = other_case(tgt)
+            fields.insert(rng.randint(0, len(fields)), 'crossref = ' + rng.choice(['{%s}', '"%s"']) % tgt)
+        o, c = rng.choice(['{}', '()']) if fields else '{}'     # '@a(k)' is not a valid entry for this reader: the key pattern takes 'k)'
+        ents.append('@%s%s%s%s%s' % (rng.choice(['misc', 'Book', 'a']), o, k, ''.join(', ' + f for f in fields), c))
+    sep = rng.choice(['\n', ' ', '\r\n', '\n\n'])
+    bad, cop = ents[i], 'xref'
+    if rng.random() < 0.75:
+        k = rng.choice(keys[:i])
+        bad, cop = with_key(bad, other_case(k) if rng.random() < 0.5 else k), 'dupkey'
+        if bad is None:
+            return None
+    if cop == 'xref' or rng.random() < 0.4:
+        c2, toks2 = _one_corruption(rng, TOKEN_RE.findall(bad))
+        if toks2 and toks2[0] == '@':
+            bad, cop = ''.join(toks2), cop + '+' + c2
+    wanted = [other_case(k) if rng.random() < 0.3 else k for k in keys if rng.random() < 0.4]
+    if rng.random() < 0.1:
+        wanted.append('*')
+    return {'op': 'bibparse', 'pre': ''.join(e + sep for e in ents[:i]), 'bad': bad, 'post': ''.join(sep + e for e in ents[i + 1:]),
+            'kind': 'entry', 'cop': cop + '/random/wanted', 'wanted': wanted, 'fam': 'dupxref'}
 
 
 def gen_cases(tier, rng, info):
@@ -720,6 +779,17 @@ def gen_cases(tier, rng, info):
         for cop, bad in dupkey_corruptions(pre, entry, every=11 if quick else 2):
             cases.append({'op': 'bibparse', 'pre': pre, 'bad': bad, 'post': post, 'kind': 'entry', 'cop': cop + '/wanted', 'wanted': wanted, 'fam': 'dupkey'})
             ndup += 1
+    nxref = 0
+    for pre, entry, post, wsets in XREF_DUP_DOCS:
+        for wanted in wsets:
+            for cop, bad in dupkey_corruptions(pre, entry, every=9 if quick else 1):
+                cases.append({'op': 'bibparse', 'pre': pre, 'bad': bad, 'post': post, 'kind': 'entry', 'cop': cop + '/wanted', 'wanted': wanted, 'fam': 'dupxref'})
+                nxref += 1
+            # ... and the entry with its own key (accepted unless corrupted): every single-token corruption
+            cs = list(corruptions(entry))
+            for cop, bad in (cs[3::7] if quick else cs):
+                cases.append({'op': 'bibparse', 'pre': pre, 'bad': bad, 'post': post, 'kind': 'entry', 'cop': cop + '/wanted', 'wanted': wanted, 'fam': 'dupxref'})
+                nxref += 1
     nwant = 0
     for di, wanted in WANTED_DOCS:
         pre, entry, post = BASE_DOCS[di]
@@ -743,8 +813,9 @@ def gen_cases(tier, rng, info):
                      '%d single-token corruptions (delete / duplicate / replace by each token kind / truncate) of one entry in %d base documents, parts on '
                      'separate lines and on one line; %d cases with wanted_entries (corruptions of wanted / unwanted / cross-referenced entries, undefined '
                      'macros and data errors in unwanted entries); %d repeated-key corruptions (key token of the corrupted entry := a key of the prefix, same '
-                     'or other case spelling, alone and with every further single-token corruption, with and without wanted_entries)'
-                     % (nstr, ALPHA, full, full + 1, full + 1, nname, PTOK, len(NAME_EXTRA), ncorr, len(BASE_DOCS), nwant, ndup))
+                     'or other case spelling, alone and with every further single-token corruption, with and without wanted_entries); %d cases of family dupxref (%d documents whose '
+                     'corrupted entry has a crossref to a LATER entry nothing else wants, read with wanted_entries: key := a key of the prefix + further corruption, and plain corruptions)'
+                     % (nstr, ALPHA, full, full + 1, full + 1, nname, PTOK, len(NAME_EXTRA), ncorr, len(BASE_DOCS), nwant, ndup, nxref, len(XREF_DUP_DOCS)))
     # -- random
     pool = ALPHA * 3 + ['@misc', '@string', '@preamble', '@comment', 'key', 'title', ' = ', '{a}', '"b"', ' # ', 'jan', 'é', '–', '\r\n', '\r',
                         ' ', '\x0b', 'author', ' and ', ',,', '{{', '}}', '\\', '%', 'ß', '٣', '@@', '0012', '~', '-', ' AND ', 'editor = {~}', 'key', 'KEY',
@@ -797,6 +868,12 @@ def gen_cases(tier, rng, info):
             if toks2 and toks2[0] == '@':
                 bad, cop = ''.join(toks2), 'dupkey+' + c2 + '/random'
         cases.append({'op': 'bibparse', 'pre': pre, 'bad': bad, 'post': post, 'kind': 'entry', 'cop': cop, 'fam': 'dupkey'})
+    # family dupxref, random: documents whose entries refer to LATER entries by crossref, read with a random wanted-set; one entry (with a
+    # crossref to a later entry) gets the key of an earlier entry (repeated: dropped) or keeps its own, and in 40 % one more token-level corruption
+    for _ in range(150 if quick else 8000):
+        r = _xref_case(rng)
+        if r is not None:
+            cases.append(r)
     # documents that repeat keys and field names (not valid renderings: no confinement clause), corrupted anywhere
     for _ in range(400 if quick else 10000):
         doc = bibgen.gen_doc(rng, dups=True, rich=True, fold_unicode_keys=True)
